@@ -251,6 +251,19 @@ Definition ADDR : string := ch 1.
 Fixpoint has_addr (s : string) : bool :=
   match s with EmptyString => false | String c r => (bN c =? 1)%N || has_addr r end.
 
+Definition is_bare (sh : shape) : bool := match sh with SBare => true | _ => false end.
+
+(* pointer to array, slice, struct or map: printed as &{...} at top level only *)
+Definition amp_kind (sh : shape) : bool :=
+  match sh with SField _ _ | SSlice _ | SArray _ | SMapVal _ | SMapKey => true | _ => false end.
+
+(* verbs fmtPointer accepts *)
+Definition ptr_verb (v : string) : bool :=
+  String.eqb v "v" || String.eqb v "p" || String.eqb v "b" || String.eqb v "o" || String.eqb v "d"
+  || String.eqb v "x" || String.eqb v "X".
+
+Definition set_erroring (st : pst) : pst := Pst (fl st) (sharpV st) (plusV st) true.
+
 (* pp.printValue.  [ro] = the value was reached through an unexported field (CanInterface false) *)
 Fixpoint pv (M : methods) (st : pst) (verb : string) (sh : shape) (depth : nat) (ro : bool) (s : string) : string :=
   let handle := Nat.eqb depth 0 || negb ro in
@@ -258,14 +271,16 @@ Fixpoint pv (M : methods) (st : pst) (verb : string) (sh : shape) (depth : nat) 
   | SBare => leaf_opaque M st verb handle s
   | SIface i => pv M st verb i (S depth) ro s
   | SPtr i =>
-      match i with
-      | SBare =>
-          (* *String has String's methods; when they are not consulted the pointer is printed *)
-          if handle && negb (erroring st) && (sharpV st || good_verb verb)
-          then leaf_opaque M st verb true s else ADDR
-      | SPtr _ | SIface _ => ADDR
-      | _ => if Nat.eqb depth 0 then "&" ++ pv M st verb i (S depth) ro s else ADDR
-      end
+      if is_bare i then
+        (* *String has String's methods; when they are not consulted the pointer is printed *)
+        (if handle && negb (erroring st) && (sharpV st || good_verb verb)
+         then leaf_opaque M st verb true s else ADDR)
+      else if amp_kind i && Nat.eqb depth 0 then "&" ++ pv M st verb i (S depth) ro s
+      else if ptr_verb verb || negb (amp_kind i) then ADDR          (* fmtPointer *)
+      else
+        (* fmtPointer's bad-verb report re-prints the pointer with %v at depth 0 while erroring:
+           a pointer to a struct / slice / array / map is then dereferenced and printed raw *)
+        "%!" ++ verb ++ "(" ++ tyname sh ++ "=&" ++ pv M (set_erroring st) "v" i 1 ro s ++ ")"
   | SField ex i =>
       (if sharpV st then tyname sh else "") ++ "{" ++
       (if plusV st || sharpV st then (if ex then "F:" else "f:") else "") ++
@@ -290,8 +305,6 @@ Definition mk_pst (verb : string) (f : flags) : pst :=
   if String.eqb verb "v" || String.eqb verb "w"
   then Pst (F false (f_minus f) false (f_space f) (f_zero f) (f_wid f) (f_prec f)) (f_sharp f) (f_plus f) false
   else Pst f false false false.
-
-Definition set_erroring (st : pst) : pst := Pst (fl st) (sharpV st) (plusV st) true.
 
 Definition addr_kind (sh : shape) : bool :=
   match dyn sh with SPtr _ | SSlice _ | SMapVal _ | SMapKey => true | _ => false end.
@@ -429,6 +442,106 @@ Definition render (M : methods) (p : path) (sh : shape) (s : string) : string :=
   | PMarshalText => m_MarshalText M s
   | PMarshalBinary => m_MarshalBinary M s
   | PCast => s
+  end.
+
+(* ------------------------------------------------------------------------------------------ *)
+(* Where the secret cannot come out (decidable side conditions of the theorems)                *)
+(* ------------------------------------------------------------------------------------------ *)
+Fixpoint no_unexported (sh : shape) : bool :=
+  match sh with
+  | SBare | SMapKey => true
+  | SField ex i => ex && no_unexported i
+  | SPtr i | SSlice i | SArray i | SMapVal i | SIface i => no_unexported i
+  end.
+
+Fixpoint no_mapkey (sh : shape) : bool :=
+  match sh with
+  | SBare => true
+  | SMapKey => false
+  | SField _ i | SPtr i | SSlice i | SArray i | SMapVal i | SIface i => no_mapkey i
+  end.
+
+(* no pointer to a struct / slice / array / map below the top level (fmt prints such a pointer
+   through fmtPointer, whose bad-verb report for %s and %q dereferences it raw) *)
+Fixpoint no_deep_ptr (sh : shape) (depth : nat) : bool :=
+  match sh with
+  | SBare | SMapKey => true
+  | SPtr i => (negb (amp_kind i) || Nat.eqb depth 0) && no_deep_ptr i (S depth)
+  | SField _ i | SSlice i | SArray i | SMapVal i | SIface i => no_deep_ptr i (S depth)
+  end.
+
+Definition fmt_safe (verb : string) (sh : shape) : bool :=
+  good_verb verb && no_unexported sh && (ptr_verb verb || no_deep_ptr (dyn sh) 0).
+
+(* the (path, shape) pairs on which the rendering is proved independent of the secret; the
+   complement is where the pinned tree reveals it (or the explicit conversion) *)
+Definition safe (p : path) (sh : shape) : bool :=
+  match p with
+  | PFmt verb f => String.eqb verb "T" || fmt_safe verb sh
+  | PSprint | PSprintln => no_unexported sh
+  | PErrorfW => false
+  | PJson | PZapAny | PZapReflect => no_mapkey sh
+  | PYaml | PConfmap | PZapStringer | PString | PGoString | PMarshalText | PMarshalBinary => true
+  | PCast => false
+  end.
+
+(* does printValue get down to the value (no pointer printed as an address on the way)? *)
+Fixpoint fmt_reaches (sh : shape) (depth : nat) : bool :=
+  match sh with
+  | SBare | SMapKey => true
+  | SIface i => fmt_reaches i (S depth)
+  | SPtr i => is_bare i || (amp_kind i && Nat.eqb depth 0 && fmt_reaches i (S depth))
+  | SField _ i | SSlice i | SArray i | SMapVal i => fmt_reaches i (S depth)
+  end.
+
+Fixpoint no_array (sh : shape) : bool :=
+  match sh with
+  | SBare | SMapKey => true
+  | SArray _ => false
+  | SField _ i | SPtr i | SSlice i | SMapVal i | SIface i => no_array i
+  end.
+
+Definition encodes_to_map (sh : shape) : bool :=
+  match dyn sh with SField _ _ | SMapVal _ | SMapKey => true
+  | SPtr i => match dyn i with SField _ _ | SMapVal _ | SMapKey => true | _ => false end
+  | _ => false end.
+
+(* the (path, shape) pairs on which the value itself is printed (through its methods) *)
+Definition shows (p : path) (sh : shape) : bool :=
+  match p with
+  | PFmt verb f => good_verb verb && no_unexported sh && fmt_reaches (dyn sh) 0
+  | PSprint | PSprintln => no_unexported sh && fmt_reaches (dyn sh) 0
+  | PJson | PZapReflect => no_unexported sh && no_mapkey sh
+  | PYaml => no_unexported sh
+  | PConfmap => no_unexported sh && no_array sh && encodes_to_map sh
+  | PZapStringer | PString | PGoString | PMarshalText | PMarshalBinary => true
+  | PZapAny | PErrorfW | PCast => false
+  end.
+
+(* what the value contributes there: the result of one of its methods, transformed by the
+   verb / encoder — a function of the methods' results only *)
+Definition leaf_text (M : methods) (p : path) (s : string) : string :=
+  match p with
+  | PFmt verb f => leaf_opaque M (mk_pst verb f) verb true s
+  | PSprint | PSprintln => leaf_opaque M (mk_pst "v" no_flags) "v" true s
+  | PJson => json_quote true (m_MarshalText M s)
+  | PZapReflect => json_quote false (m_MarshalText M s)
+  | PYaml | PConfmap | PMarshalText => m_MarshalText M s
+  | PZapStringer => json_quote false (m_String M s)
+  | PString => m_String M s
+  | PGoString => m_GoString M s
+  | PMarshalBinary => m_MarshalBinary M s
+  | PZapAny | PErrorfW | PCast => EmptyString
+  end.
+
+(* paths whose transform keeps the method's result verbatim (no precision, no hex) *)
+Definition verbatim (p : path) : bool :=
+  match p with
+  | PFmt verb f => (String.eqb verb "v" || String.eqb verb "s" || String.eqb verb "q")
+                   && match f_prec f with None => true | Some _ => false end
+  | PSprint | PSprintln | PJson | PZapReflect | PYaml | PConfmap | PMarshalText | PZapStringer
+  | PString | PGoString | PMarshalBinary => true
+  | PZapAny | PErrorfW | PCast => false
   end.
 
 (* ------------------------------------------------------------------------------------------ *)
